@@ -330,6 +330,65 @@ def prove_add(src_root, ex: Explorer):
     ex.run(path, 'add')
 
 
+# The numeric values of the states are the ON-DISK format of the cache (a pickled transfer stores state.VALUE.value): a cache written by an
+# earlier run must decode to the same states.
+STATE_VALUES = {'UNSET': -1, 'VIRGIN': 0, 'QUEUED': 1, 'INITIALIZING': 3, 'INCOMPLETE': 4, 'DOWNLOADING': 5, 'UPLOADING': 6, 'COMPLETE': 7,
+                'FAILED': 8, 'ABORTED': 9, 'PAUSED': 10}
+
+
+def prove_format_and_read(src_root, ex: Explorer):
+    def values(ctx: Ctx):
+        it = mk(src_root, ctx)
+        st = cls(it, STATE, 'TransferState.State')
+        got = {m.name: m.value for m in st.enum_members}
+        ctx.prove('C17.format.state-values', all(got.get(k) == v for k, v in STATE_VALUES.items()),
+                  f'the stored numbers of the states changed: {sorted((k, got.get(k), v) for k, v in STATE_VALUES.items() if got.get(k) != v)} '
+                  '(name, now, in caches written so far)')
+    ex.run(values, 'state-values')
+
+    def read(ctx: Ctx):
+        """TransferShelveCache.read returns every stored transfer - an upload and a download of the same user and path are two transfers"""
+        it = mk(src_root, ctx)
+        D = cls(it, MODEL, 'TransferDirection')
+        a = new(it, MODEL, 'Transfer', username='bob', remote_path='p', direction=D.enum_members[0])
+        b = new(it, MODEL, 'Transfer', username='bob', remote_path='p', direction=D.enum_members[1])
+        c = new(it, MODEL, 'Transfer', username='eve', remote_path='p', direction=D.enum_members[1])
+        stored = {'k1': a, 'k2': b, 'k3': c}
+
+        class Shelf:
+            def pyvc_enter(self, it2, is_async):
+                return self
+
+            def pyvc_exit(self, it2, exc, is_async):
+                return False
+
+            def pyvc_iter(self, it2, loop=None):
+                return list(stored.keys())
+
+            def pyvc_getitem(self, it2, key):
+                return stored[unbox(key)]
+
+            def pyvc_len(self, it2):
+                return len(stored)
+
+            def pyvc_getattr(self, it2, name):
+                if name == 'items':
+                    return Native('items', lambda it3, a_, k: list(stored.items()))
+                if name == 'values':
+                    return Native('values', lambda it3, a_, k: list(stored.values()))
+                if name == 'keys':
+                    return Native('keys', lambda it3, a_, k: list(stored.keys()))
+                raise Unsupported(f'shelf.{name}')
+        it.natives['shelve.open'] = Native('shelve.open', lambda it2, a_, k: Shelf())
+        it.natives['os.path.join'] = Native('join', lambda it2, a_, k: 'db')
+        cache = new(it, CACHE, 'TransferShelveCache', data_directory='dir')
+        r = it.call(it.getattr(cache, 'read'), [], {})
+        got = list(r) if isinstance(r, list) else list(it.iterate(r))
+        ctx.prove('C17.cache.read.returns-every-record', len(got) == 3 and all(any(x is y for x in got) for y in (a, b, c)),
+                  f'3 records stored (an upload and a download of bob for one path, a download of eve), {len(got)} returned')
+    ex.run(read, 'cache-read')
+
+
 def prove_manager_cache_calls(src_root, ex: Explorer):
     """(a) TransferManager.write_cache() hands the CURRENT list to the cache, whatever its length - with an empty list too: that is how the
     removal of the last transfer reaches the disk (C17.write.exact removes the stale entries).  (b) TransferManager.start() keeps the
@@ -376,7 +435,7 @@ def prove_manager_cache_calls(src_root, ex: Explorer):
 
 
 def items(src_root, tier):
-    return [('manager', None)] + [('pickle', s) for s in C03.STATE_CLASSES] + [('key', None), ('write', None)] + [('read_cache', s) for s in C03.STATE_CLASSES] + [('add', None)]
+    return [('format', None), ('manager', None)] + [('pickle', s) for s in C03.STATE_CLASSES] + [('key', None), ('write', None)] + [('read_cache', s) for s in C03.STATE_CLASSES] + [('add', None)]
 
 
 def run_item(src_root, item, tier):
@@ -396,6 +455,8 @@ def run_item(src_root, item, tier):
             prove_add(src_root, ex)
         elif kind == 'manager':
             prove_manager_cache_calls(src_root, ex)
+        elif kind == 'format':
+            prove_format_and_read(src_root, ex)
     except Unsupported as e:
         res.errors.append(f'{kind}:{arg}: unsupported: {e}')
     collect(res, ex)
